@@ -19,23 +19,15 @@ import (
 	"path/filepath"
 	"sort"
 	"strings"
-	"sync"
 	"testing"
 
 	kit "verifkit"
-
-	bnet "github.com/bio-routing/bio-rd/net"
-	"github.com/bio-routing/bio-rd/route"
-	"github.com/bio-routing/bio-rd/routingtable"
-	"github.com/bio-routing/bio-rd/routingtable/adjRIBOut"
-	"github.com/bio-routing/bio-rd/routingtable/filter"
-	"github.com/bio-routing/bio-rd/routingtable/locRIB"
 )
 
 const c26Rule = "the C25(b) concurrent table workload (2-8 goroutines, generated operation mixes incl. readers) under the race detector; non-trivial = round in which >=2 goroutines were observed inside operations on different tables at the same time"
 
 func c26Rounds() int {
-	n := kit.Scale(500, 4000)
+	n := kit.Scale(1500, 6000)
 	if v := os.Getenv("C26_ROUNDS"); v != "" {
 		fmt.Sscanf(v, "%d", &n)
 	}
@@ -138,26 +130,3 @@ func TestVerifC26Tables(t *testing.T) {
 	}
 	c26RunChild(t, "TestVerifC26ChildTables", "tables")
 }
-
-// c26Pair runs f and g in two goroutines that are not ordered by any
-// synchronisation, n times (witness helper: the race detector reports an
-// unsynchronised conflicting access pair even when the two do not overlap in
-// time).
-func c26Pair(n int, f, g func()) {
-	for i := 0; i < n; i++ {
-		var wg sync.WaitGroup
-		wg.Add(2)
-		go func() { defer wg.Done(); f() }()
-		go func() { defer wg.Done(); g() }()
-		wg.Wait()
-	}
-}
-
-var (
-	_ = bnet.IPv4FromOctets
-	_ = route.BGPPathType
-	_ = routingtable.ClientOptions{}
-	_ = adjRIBOut.New
-	_ = filter.NewAcceptAllFilterChain
-	_ = locRIB.New
-)
